@@ -49,3 +49,26 @@ package v1alpha1
 //@   safety overflow, nil
 //@   requires j != nil
 //@   ensures [C08] retry-delay-value: result == retryDelaySeconds(j) * 1000000000
+
+// value equality of optional timestamps (deep copies produce new pointers with equal pointees)
+//@ pure tsSame(a *metav1.Time, b *metav1.Time) bool = (a == nil) == (b == nil) && (a != nil ==> a.Time == b.Time)
+//@ pure statusSame(a *TaskStatus, b *TaskStatus) bool = (a == nil) == (b == nil) && (a != nil ==> *a == *b)
+//@ pure indexSame(a *ParallelIndex, b *ParallelIndex) bool = (a == nil) == (b == nil)
+//@        && (a != nil ==> (a.IndexNumber == nil) == (b.IndexNumber == nil) && (a.IndexNumber != nil ==> *a.IndexNumber == *b.IndexNumber)
+//@                         && a.IndexKey == b.IndexKey && a.MatrixValues == b.MatrixValues)
+
+// ASSUMED (generated code): a fresh TaskRef that is value-equal to the receiver
+//@ extern func TaskRef.DeepCopy
+//@   params in
+//@   fresh result
+//@   ensures (in == nil) == (result == nil)
+//@   ensures in != nil ==> result.Name == in.Name && result.CreationTimestamp == in.CreationTimestamp && result.RetryIndex == in.RetryIndex && result.Status == in.Status
+//@        && tsSame(result.RunningTimestamp, in.RunningTimestamp) && tsSame(result.FinishTimestamp, in.FinishTimestamp)
+//@        && statusSame(result.DeletedStatus, in.DeletedStatus) && indexSame(result.ParallelIndex, in.ParallelIndex)
+//@        && (in.DeletedStatus != nil ==> fresh(result.DeletedStatus))
+
+//@ extern func TaskStatus.DeepCopy
+//@   params in
+//@   fresh result
+//@   ensures (in == nil) == (result == nil)
+//@   ensures in != nil ==> *result == *in
